@@ -20,6 +20,7 @@ type RefWallet struct {
 	// Affected: some private scalar on the hardened part of the path has leading zero
 	// bytes, so the implementation's derivation is known to deviate (C14 finding).
 	Affected bool
+	path     map[string][]byte
 }
 
 // RefAddr is one derived address.
@@ -35,12 +36,16 @@ type RefAddr struct {
 // NewRefWallet derives the account of a mnemonic.
 func NewRefWallet(mnemonic, pass string) (*RefWallet, error) {
 	H := uint32(0x80000000)
-	k := refMaster(refSeed(mnemonic, pass))
-	w := &RefWallet{}
-	for _, i := range []uint32{H + 44, H + config.ChainParams.HDCoinType, H + 1} {
+	seed := refSeed(mnemonic, pass)
+	k := refMaster(seed)
+	w := &RefWallet{path: map[string][]byte{"seed": seed}}
+	names := []string{"master", "purpose", "coin type"}
+	for j, i := range []uint32{H + 44, H + config.ChainParams.HDCoinType, H + 1} {
 		if len(k.priv.Bytes()) < 32 {
 			w.Affected = true
 		}
+		w.path["xprv "+names[j]] = []byte(refSer(k, true))
+		w.path[names[j]+" scalar"] = ser256(k.priv)
 		k = refChild(k, i)
 	}
 	w.acct = k
@@ -72,4 +77,23 @@ func (w *RefWallet) Addr(i uint32) (*RefAddr, error) {
 		return nil, err
 	}
 	return &RefAddr{Index: i, Std: std.EncodeAddress(), Staking: st.EncodeAddress(), Hash: h[:], PubKey: c.pub, Priv: c.priv}, nil
+}
+
+// SecretMaterial lists the secret byte strings derivable from the mnemonic: BIP-39 seed,
+// extended private keys (serialised) and raw scalars along the path, and the private keys of
+// the first n external addresses.
+func (w *RefWallet) SecretMaterial(n int) map[string][]byte {
+	m := map[string][]byte{}
+	m["xprv account"] = []byte(refSer(w.acct, true))
+	m["xprv external branch"] = []byte(refSer(w.ext, true))
+	m["account scalar"] = ser256(w.acct.priv)
+	m["external branch scalar"] = ser256(w.ext.priv)
+	for k, b := range w.path {
+		m[k] = b
+	}
+	for i := 0; i < n; i++ {
+		c := refChild(w.ext, uint32(i))
+		m["private key of address "+string(rune('0'+i))] = ser256(c.priv)
+	}
+	return m
 }
